@@ -533,6 +533,21 @@ def MAX_COMPONENT_RECURSION_DEPTH : Nat := Generated.MAX_COMPONENT_RECURSION_DEP
 /-- `Context` from the list `build_context` produces (a later insert of a name replaces). -/
 def ctxOfList (l : List (String × Value)) : Ctx := l.foldl (fun c kv => c.insert kv.1 kv.2) []
 
+/-- `self.tera.components.get(name).unwrap_or_else(|| &self.template.components[name])` -/
+def findComponent (env : Env) (vm : VmCtx) (name : String) : Option (Component.Def × Chunk) :=
+  match assoc name env.components with
+  | some d => some d
+  | none => assoc name vm.template.components
+
+/-- `if has_body { Some(state.stack.pop().0.mark_safe()) } else { None }`; `none` = pop of an
+empty stack -/
+def popBody (hasBody : Bool) (rest : List Slot) : Option (Option Value × List Slot) :=
+  if hasBody then
+    match rest with
+    | [] => none
+    | (b, _) :: rest' => some (some b.markSafe, rest')
+  else some (none, rest)
+
 /-- `component!(name, current_ip, has_body)` (146-187) with `render_component` (947-967). -/
 def stepComponent (rec : VmCtx → Chunk → State → RunRes) (env : Env) (vm : VmCtx) (c : Chunk)
     (name : String) (hasBody : Bool) (pc : Nat) (st : State) : StepRes :=
@@ -541,19 +556,10 @@ def stepComponent (rec : VmCtx → Chunk → State → RunRes) (env : Env) (vm :
   | (kwargs, _) :: rest =>
     match kwargs with
     | .map es =>
-      let found := match assoc name env.components with
-        | some d => some d
-        | none => assoc name vm.template.components
-      match found with
+      match findComponent env vm name with
       | none => .panic "interpreter.rs:154 self.template.components[name]"
       | some (cdef, cchunk) =>
-        let bodyRes : Option (Option Value × List Slot) :=
-          if hasBody then
-            match rest with
-            | [] => none
-            | (b, _) :: rest' => some (some b.markSafe, rest')
-          else some (none, rest)
-        match bodyRes with
+        match popBody hasBody rest with
         | none => .panic POP_SITE
         | some (body, rest') =>
           match Component.buildContext cdef es body with
@@ -585,7 +591,7 @@ def step (rec : VmCtx → Chunk → State → RunRes) (env : Env) (vm : VmCtx) (
   | .writeText t => .next (pc + 1) (st.write t)
   | .writeTop => stepWriteTop env vm c pc st
   | .set n global => stepSet n global pc st
-  | .include n => stepInclude rec env vm n pc st
+  | .include_ n => stepInclude rec env vm n pc st
   | .buildMap n => stepBuildMap n pc st
   | .buildList n => stepBuildList n pc st
   | .buildMapWithSpreads flags => stepBuildMapWithSpreads env vm c flags pc st
